@@ -342,7 +342,7 @@ def run(ctx):
             n, last = batch("enumerated-depth2-%d" % (k // step + 1), big[k : k + step], 0.01, last)
             total += n
         allc = list(range(1, len(cfgs) + 1))
-        rnd = [random_expr(ctx.rng, ctx.rng.choice([3, 3, 4])) for _ in range(6000)]
+        rnd = [random_expr(ctx.rng, ctx.rng.choice([3, 3, 4])) for _ in range(3000)]
         rnd = [{"e": e, "cfgs": allc} for e in rnd if leaves(e) & {"x", "y"}]
         nrandom = len(rnd)
         n, last = batch("random", rnd, 0.02, last)
